@@ -181,6 +181,50 @@ pub proof fn lemma_subset_len(a: Set<int>, b: Set<int>)
         plan.dropped.append(relations_unit.__doc__.strip())
 
 
+def hash_order_unit(plan):
+    """(X/K) body of `impl Hash for MechSet::hash`, verbatim except: `for x in self.set.iter() {` -> index loop over the insertion
+    order; `std::collections::hash_map::DefaultHasher::new()` -> `ElemHasher::new()`; `x.hash(&mut h)` -> `x.hash_into(&mut h)`;
+    `x.hash(state)` -> `x.hash_outer(state)`; `a.wrapping_add(b)` -> `wadd(a, b)`.  Contract: the outer hasher is fed exactly one
+    word, wsum(ids), and wsum is proved invariant under permutation of the insertion order (lemma_hash_order_independent)."""
+    from vlib import read_repo, VerusUnit, AnchorLost, find_code, match_brace, extract_fn
+    name = "C14.hash_order.MechSet"
+    ob = plan.ob(name, "verus", "proved", functions=["src/core/src/structures/set.rs: impl Hash for MechSet"],
+                 what="MechSet::hash feeds the hasher one word that depends only on the multiset of element hashes, hence not on insertion order (Hash/Eq law for sets as set elements)")
+    try:
+        text = read_repo("src/core/src/structures/set.rs")
+        m = find_code(text, r"impl\s+Hash\s+for\s+MechSet\s*\{")
+        if not m:
+            raise AnchorLost("impl Hash for MechSet not found")
+        blk = text[m.start():match_brace(text, m.end() - 1)]
+        sig, body = extract_fn(blk, "hash")
+        b = re.sub(r"//[^\n]*", "", body).strip()
+        b = b[1:-1]
+        INV = ("    invariant state.fed@ == old(state).fed@, HAS_ACC,")
+        LOOP = ("for k_ in 0..order.len()\n" + INV + "\n    { let x = &order[k_];\n"
+                "      proof { lemma_wsum_step(ids(order@).subrange(0, k_ as int), x.id); assert(ids(order@).subrange(0, k_ as int + 1) =~= ids(order@).subrange(0, k_ as int).push(x.id)); }")
+        b, n1 = re.subn(r"for\s+x\s+in\s+self\.set\.iter\(\)\s*\{", lambda m_: LOOP, b)
+        b = b.replace("HAS_ACC", "acc as int == wsum(ids(order@).subrange(0, k_ as int))" if re.search(r"\blet\s+mut\s+acc\b", b) else "true")
+        b = re.sub(r"std::collections::hash_map::DefaultHasher::new\(\)", "ElemHasher::new()", b)
+        b = re.sub(r"\bx\.hash\(&mut\s+(\w+)\)", r"x.hash_into(&mut \1)", b)
+        b = re.sub(r"\bx\.hash\(state\)", "x.hash_outer(state)", b)
+        b = re.sub(r"\b(\w+)\.wrapping_add\(([^;]*)\);", r"wadd(\1, \2);", b)
+        if n1 != 1 or "self." in b:
+            raise AnchorLost("MechSet::hash no longer iterates `for x in self.set.iter()`")
+    except AnchorLost as e:
+        plan.anchor_errors.append((name, str(e)))
+        ob.status, ob.detail = "undecided", "anchor lost: " + str(e)
+        return
+    fn = ("fn mechset_hash(order: &Vec<Elem>, state: &mut OuterHasher)\n"
+          "  ensures final(state).fed@ == old(state).fed@.push(Fed::Word(wsum(ids(order@)) as u64)),\n{\n"
+          "  proof { assert(ids(order@).subrange(0, 0) =~= Seq::<int>::empty()); assert(usum(Seq::<int>::empty()) == 0); }\n"
+          + b + "\n  proof { assert(ids(order@).subrange(0, order@.len() as int) =~= ids(order@)); }\n}\n")
+    items = [open(os.path.join(VERIF, "contracts", "C14", "hash_lemmas.rs")).read(), fn, vlib.verus_canary("canary_hash", "x: u64", [])]
+    text = vlib.verus_file(items, prelude="use vstd::multiset::*;\nuse vstd::seq_lib::*;\n")
+    plan.verus.append(VerusUnit("c14_hash_order", text, {"mechset_hash": name}, ["canary_hash"]))
+    plan.dropped.append(hash_order_unit.__doc__.strip())
+    plan.assumptions.append("C14.hash_order: a fresh DefaultHasher fed with one element finishes with a value that depends only on the element (eh), in 0..2^64 (admitted range axiom); IndexSet iterates in insertion order")
+
+
 def literal_unit(plan):
     """(F) the kind-homogeneity check of `set()` (src/interpreter/src/structures.rs): the statements from
     `let element_kind = ..` up to (excluding) the construction of the set, verbatim except `return Err(..)` -> `return None`
@@ -232,6 +276,10 @@ def plan(plan, tier, seed):
         literal_unit(plan)
     except Exception as e:
         plan.anchor_errors.append(("C14.literal.*", repr(e)))
+    try:
+        hash_order_unit(plan)
+    except Exception as e:
+        plan.anchor_errors.append(("C14.hash_order.*", repr(e)))
     try:
         metadata_unit(plan)
     except Exception as e:
